@@ -254,6 +254,39 @@ ROUND5 = {
 }
 
 
+
+# clauses added in the sixth seeded round and the proactive pass before it (appended to the claim texts above)
+ROUND6 = {
+    "C01": "R01.13 the other-type edge of every keyed type test answers WRONGTYPE on every path. R01.14 a sorted-set score is replaced unless it "
+           "is exactly the stored one. R01.15 the skiplist comparator orders scores by f64's partial order in argument order and ties by member "
+           "bytes (no total_cmp/to_bits). R01.16 in the LMOVE handler removals depend on wherefrom and insertions on whereto.",
+    "C02": "R02.9 reply futures in the request path are polled directly (no timeout/select/abortable that abandons a queued command). R02.10 no "
+           "thread-local or mutable static is used under src/redis/executor, src/redis/data or the command table.",
+    "C03": "R03.9 the executor's per-shard ServerConfig is touched only by the CONFIG handlers.",
+    "C04": "R04.13 (= C15 R15.13) an Incomplete answer is decided by a missing terminator or an exact position, never by a product/estimate.",
+    "C05": "R05.10 PartialEq of Value and of every stored type is derived or field-by-field `==` (no tolerance, no projection).",
+    "C06": "R06.10 every delta a ShardReplicaState emits carries (a clone of) the very value it stores in replicated_keys.",
+    "C07": "R07.6 a LamportClock's replica id is written only at construction (no field store, no whole-value store through &mut).",
+    "C08": "R08.10 (= C11 R11.3) recovered checkpoint and deltas are handed to the shard actors as recovered. R08.11 create_checkpoint records "
+           "exactly the last_segment_id its caller passed in with the snapshot.",
+    "C09": "R09.11 (= C10 R10.10) the WAL file-name recogniser accepts every name the writer can produce.",
+    "C10": "R10.10 the WAL file-name recogniser rejects only a missing prefix/suffix or unparsable digits and uses the writer's prefix, suffix and radix.",
+    "C11": "R11.11 (= R08.11), R11.12 (= R10.10), R11.13 (= C14 R14.13) checkpoint decoders return the decoded state untouched, R11.14 (= C12 R12.11) "
+           "Manifest.next_segment_id only grows.",
+    "C12": "R12.9 (= C13 R13.6) compaction unlists by membership in what it folded. R12.10 (= C13 R13.1) the per-key fold overwrites only behind "
+           "`absent` or `incoming stamp > stored stamp`. R12.11 every store to Manifest.next_segment_id is an increment of the old counter or the guarded raise.",
+    "C13": "R13.14 (= C06 R06.10) deltas carry the full value. R13.15 (= C12 R12.3) a manifest save reports success only after its own put and rename succeeded.",
+    "C14": "R14.13 the checkpoint decoders return the deserialised state untouched. R14.14 the segment reader and its iterator decode the record block "
+           "as read/decompressed (no truncate/resize by an unchecksummed size). R14.15 no hand-written serde impl besides SDS.",
+    "C15": "R15.13 an Incomplete answer is decided by a missing terminator or an exact position. R15.14 the terminator scans resume at candidate+1. "
+           "R15.5 also: exactly one answer (the sentinel) on the no-terminator edge.",
+    "C18": "R18.11 the receiving side of a sync merges every delivered delta (every iteration passes apply_remote_delta; whole batch).",
+    "C19": "R19.7 GossipRouter constructors neither read the ring nor prune the address map. R19.8 HashRing.replication_factor is stored only by the constructor.",
+}
+for _pid, _extra in ROUND6.items():
+    CLAIMS[_pid]["text"] = CLAIMS[_pid]["text"].rstrip() + " " + _extra
+
+
 def main():
     for _pid, _extra in ROUND5.items():
         CLAIMS[_pid]["text"] = CLAIMS[_pid]["text"].rstrip() + " " + _extra
